@@ -179,6 +179,36 @@ theorem C17_extract_meets_spec (info : SigInfo) : extract info = specOrigin info
     simp only at h1 h2
     rw [h1, h2.1, h2.2]
 
+/-! ## Round sixteen: non-interference ("rather than stale or overlapping memory")
+
+`si_pid` / `si_uid` live in a union: for a timer, a fault or a kernel-generated signal the same bytes hold something
+else. The strongest reading of the last clause is that, when the kernel supplies no process, the *whole* reported
+origin is a function of `(si_signo, si_code)` alone - whatever those bytes contain. -/
+
+/-- **C17.no_stale_memory** — for every signal number and cause code for which the kernel supplies no process, and
+every two contents of the bytes at the pid / uid offsets, the reported origins are equal. -/
+theorem C17_no_stale_memory (signo code p u p' u' : Int) (h : kernelFills signo code = false) :
+    extract ⟨signo, code, p, u⟩ = extract ⟨signo, code, p', u'⟩ := by
+  rw [C17_extract_meets_spec, C17_extract_meets_spec]
+  simp [specOrigin, h]
+
+/-- **C17.cause_ignores_payload** — the signal number and the cause class never depend on those bytes, supplied or
+not. -/
+theorem C17_cause_ignores_payload (signo code p u p' u' : Int) :
+    (extract ⟨signo, code, p, u⟩).signal = (extract ⟨signo, code, p', u'⟩).signal ∧
+    (extract ⟨signo, code, p, u⟩).cause = (extract ⟨signo, code, p', u'⟩).cause := by
+  rw [C17_extract_meets_spec, C17_extract_meets_spec]
+  exact ⟨rfl, rfl⟩
+
+/-- **C17.process_verbatim** — and when the kernel does supply them, the reported pair is those two fields, verbatim
+(zeros included), for every record. -/
+theorem C17_process_verbatim (signo code p u : Int) (h : kernelFills signo code = true) :
+    (extract ⟨signo, code, p, u⟩).process = some (p, u) := by
+  rw [C17_extract_meets_spec]
+  simp [specOrigin, h]
+
+example : kernelFills 14 (-2) = false ∧ kernelFills 10 0 = true := by decide
+
 /-! ## non-vacuity -/
 example : extract ⟨10, 0, 4242, 1000⟩ = ⟨10, some (4242, 1000), .sentUser⟩ := by decide
 example : extract ⟨14, 128, 4242, 1000⟩ = ⟨14, none, .kernel⟩ := by decide
